@@ -9,6 +9,8 @@ reported error is the one before the last update; `validC13_sound`: acceptance i
 import math
 from fractions import Fraction
 
+import zlib
+
 import numpy as np
 
 import core
@@ -43,7 +45,14 @@ def one(ctx, S, coef, parity, crit, maxiter):
         kw["maxiter"] = maxiter
     try:
         with core.quiet():
-            ph, err, it, proto = S.newton_Solver(np.array(coef, dtype=float), parity, **kw)
+            form = ["float64-array", "float64-array", "float32-array", "float16-array", "float64-array"][zlib.crc32(repr((coef, parity)).encode()) % 5]
+            ctx.count("coefficient-container:" + form)
+            if form == "float64-array":
+                arr = np.array(coef, dtype=float)
+            else:
+                arr = np.array(coef, dtype=(np.float32 if form == "float32-array" else np.float16))
+                coef = [float(x) for x in arr]          # the target IS what the narrow array holds (exactly representable reals)
+            ph, err, it, proto = S.newton_Solver(arr, parity, **kw)
         out = "ok"
     except Exception as e:  # noqa
         out = type(e).__name__ + ": " + str(e)[:60]
